@@ -476,7 +476,10 @@ class Engine:
                 return ("agg", rv["adt"], rv["variant"], tuple(zip([str(n) for n in names], ops)))
             if agg in ("closure", "coroutine", "coroutineclosure"):
                 names = rv.get("fields") or [str(i) for i in range(len(ops))]
-                return ("closure", rv["def"], tuple(zip([str(n) for n in names], ops)))
+                names = [str(n) for n in names]
+                muts = tuple(n for n, o in zip(names, rv["ops"])
+                             if o["k"] in ("copy", "move") and o["place"]["ty"].startswith("&mut"))
+                return ("closure", rv["def"], tuple(zip(names, ops)), muts)
             return ("undef", "aggregate")
         if k == "repeat":
             return ("agg", "<array>", None, (("*", self.operand(frame, st, rv["op"])),))
@@ -797,6 +800,18 @@ class Engine:
             if a[0] == "ptr" and self.arg_is_mut(fj, t, i):
                 cur = self.read_rp(st, a[1], a[2])
                 self.write_rp(st, a[1], a[2], ("call", "havoc:" + target, (cur,), self.next_uniq(st, "havoc:" + target)), site)
+        # closures handed to library code may be invoked any number of times: whatever they
+        # capture by unique borrow becomes unknown (the rule analyses the closure body itself)
+        for a in args:
+            clo = a
+            if clo[0] == "ptr":
+                clo = self.read_rp(st, clo[1], clo[2])
+            if clo[0] == "closure" and len(clo) > 3:
+                for n in clo[3]:
+                    pv = proj(clo, ("f", "<closure>", n))
+                    if pv[0] == "ptr":
+                        cur = self.read_rp(st, pv[1], pv[2])
+                        self.write_rp(st, pv[1], pv[2], ("call", "fold:" + clo[1], (cur,), n), site)
         yield st, rv
 
     def arg_is_mut(self, fj, t, i):
@@ -923,7 +938,10 @@ def strip_all_generics(p):
             depth -= 1
         elif depth == 0:
             out.append(ch)
-    return "".join(out)
+    r = "".join(out)
+    while "::::" in r:
+        r = r.replace("::::", "::")
+    return r.lstrip(":")
 
 
 def arg_names(fn):
